@@ -1,6 +1,6 @@
 package c18
 
-// Deterministic witnesses of the findings listed in /verif/known_findings.json for C18 (see FINDINGS.md).
+// Deterministic witnesses of the findings listed in /verif/known_findings.json for C18 (witness and description: known_test.go).
 
 import (
 	"context"
